@@ -20,7 +20,8 @@ PROP = {'title': 'Vector, dim and matrix arithmetic obeys the exact ring and mod
                            'harness/C14_rect_b.cpp', 'harness/C14_rect_c.cpp', 'harness/C14_rect_d.cpp', 'harness/C14_vec.cpp',
                            'harness/C14_dim.cpp', 'harness/C14_narrow.cpp', 'harness/C14_narrow_mixed_a.cpp', 'harness/C14_narrow_mixed_b.cpp',
                            'harness/C14_strided_vec.cpp', 'harness/C14_strided_vec4.cpp', 'harness/C14_strided_dim.cpp',
-                           'harness/C14_strided_mat2.cpp', 'harness/C14_strided_mat3.cpp', 'harness/C14_shapes.cpp'],
+                           'harness/C14_strided_mat2.cpp', 'harness/C14_strided_mat3.cpp', 'harness/C14_shapes.cpp', 'harness/C14_scalar.cpp',
+                           'harness/C14_access.cpp'],
                'libs': [],
                'flavour': 'asan'},
               # second binary: every product whose left operand has more rows than columns, and the mixed-scalar
@@ -36,7 +37,18 @@ PROP = {'title': 'Vector, dim and matrix arithmetic obeys the exact ring and mod
                     {'name': 'vector_dim_arithmetic_mixed_scalars', 'source': 'harness/C14_probe_mixed.cpp', 'flags': ['-DC14_PROBE_KIND=3']},
                     {'name': 'matrix_product_rows_lt_inner', 'source': 'harness/C14_probe_products.cpp', 'flags': ['-DC14_PROBE_KIND=1']},
                     {'name': 'matrix_product_rows_gt_inner', 'source': 'harness/C14_probe_products.cpp', 'flags': ['-DC14_PROBE_KIND=2']},
-                    {'name': 'matrix_product_rows_eq_inner_nonsquare', 'source': 'harness/C14_probe_products.cpp', 'flags': ['-DC14_PROBE_KIND=3']}],
+                    {'name': 'matrix_product_rows_eq_inner_nonsquare', 'source': 'harness/C14_probe_products.cpp', 'flags': ['-DC14_PROBE_KIND=3']},
+                    {'name': 'write_at_r_c_int', 'source': 'harness/C14_probe_writes.cpp', 'flags': ['-DC14_PROBE_KIND=1']},
+                    {'name': 'write_at_r_at_int', 'source': 'harness/C14_probe_writes.cpp', 'flags': ['-DC14_PROBE_KIND=2']},
+                    {'name': 'write_matrix_get_unsafe_int', 'source': 'harness/C14_probe_writes.cpp', 'flags': ['-DC14_PROBE_KIND=3']},
+                    {'name': 'write_mRC_int', 'source': 'harness/C14_probe_writes.cpp', 'flags': ['-DC14_PROBE_KIND=4']},
+                    {'name': 'write_vector_at_int', 'source': 'harness/C14_probe_writes.cpp', 'flags': ['-DC14_PROBE_KIND=5']},
+                    {'name': 'write_vector_xyzw_int', 'source': 'harness/C14_probe_writes.cpp', 'flags': ['-DC14_PROBE_KIND=6']},
+                    {'name': 'write_vector_get_unsafe_int', 'source': 'harness/C14_probe_writes.cpp', 'flags': ['-DC14_PROBE_KIND=7']},
+                    {'name': 'write_dim_at_int', 'source': 'harness/C14_probe_writes.cpp', 'flags': ['-DC14_PROBE_KIND=8']},
+                    {'name': 'write_dim_whd_int', 'source': 'harness/C14_probe_writes.cpp', 'flags': ['-DC14_PROBE_KIND=9']},
+                    {'name': 'write_dim_get_unsafe_int', 'source': 'harness/C14_probe_writes.cpp', 'flags': ['-DC14_PROBE_KIND=10']},
+                    {'name': 'write_row_view_xy_int', 'source': 'harness/C14_probe_writes.cpp', 'flags': ['-DC14_PROBE_KIND=11']}],
  'deadline': {'quick': 300, 'thorough': 1500},
  'rule': 'nested loops over explicit families, nothing sampled. 2x2: all 256 matrices over {-1,0,1,2} (unary laws, scalars -9..9), all '
          '65536 pairs (+,-,==,!=, product in the 4 static/view storage combinations, (AB)^T=B^T A^T, det and adjugate (anti)multiplicative), '
@@ -76,7 +88,17 @@ PROP = {'title': 'Vector, dim and matrix arithmetic obeys the exact ring and mod
          'product, (A*B)*v = A*(B*v) for two vectors, I*A = A and A*I = A for all 16 shapes, associativity through 1x2.2x3.3x4; non-trivial = the '
          'last inner index contributes to the product. Binary C14b holds exactly the instantiations with rows(left) > inner dimension (24 shape '
          'triples, right identity of the 6 tall shapes, 3x2.2x3 / 4x3.3x4 / column.row product groups, their associativity and matrix*vector laws, '
-         'narrow column.row products) and matrix<Left>*vector<Right> with Left != Right',
+         'narrow column.row products), matrix<Left>*vector<Right> with Left != Right, and the writes of the built-in int through accessors. '
+         'User-defined exact scalars (C14_scalar.hpp/.cpp): integer quaternions quat (non-commutative *) exhaustively over {0,i,j,1+k}^N vectors/dims '
+         '(N=2,3) x 5 scalars and 2x2 / 2x3.3x2 matrices over {0,i,j,1+k}/{i,j,k}: s*v, v*s, v*=s, v*w, + -, dot, length_square, cross, '
+         'vector(op)dim, s*A, A*s, A*=s, A+-B, A*B, A*x, transpose, identity, module laws, against plain arrays with the documented operand '
+         'order (s*v[i] for the left-scalar overload, v[i]*s for the right one, sum_k a[i][k]*b[k][j]); the symbolic scalar term (value = the '
+         'expression string that produced it, every operator application counted, moves observable) once per operator and shape: result strings, '
+         'the factors of every product in the documented operand order and no read of a moved-from scalar (the order in which the products of one component '
+         'are summed and the number of scalar operations spent are recorded as info counters, not judged: over an exact ring they cannot change a value). Write access (C14_access.hpp): '
+         'for at_r_c, at_r+at, get_unsafe.get_unsafe, mRC, row-view x/y/z/w, at_r row assignment; vector/dim at, x/y/z/w resp. w/h/d, get_unsafe, '
+         'storage()[i]; static, pitched-block and strided storages; T = quat (binary C14) and int (binary C14b): = += *= -= through the accessor, '
+         'then the raw elements and every accessor (const and non-const) are read back; the accessor result type must be T& / T const&',
  'assumptions': ['narrow/mixed scalars: only operators whose declared result type is decltype(L op R) are checked on values that leave the '
                  'operand range; functions returning the operand type T (dot, determinant, cross, compound assignment, transform_point) narrow by '
                  'design and are checked with int only; unsigned short / unsigned int mixing is excluded (promotion to int overflows / modular '
